@@ -4,7 +4,9 @@ equals what a fresh render of the current state would produce. Nodes that are no
 region whose inputs changed keep their identity: they are updated in place, never recreated."
 
 Model: `Model/DomView.lean` (`mount`, `update`, `dom`); helpers and proofs: `Lemmas/DomView.lean`.
-Everything below holds for ALL view descriptions, stores, counters and write histories.
+Everything below holds for ALL view descriptions, stores, counters and write histories — including
+descriptions with `NoHydrate` (`VD.noHydrate`, mounted as `Inst.island`), which on the client behaves
+exactly like a fragment (`Realizes.island`; `ids`, `stable`, `skeleton`, `noDynOn` treat it like `frag`).
 
 Reading guide
 * `Shape`/`shapes`: a document with node identities forgotten.
@@ -238,6 +240,26 @@ example : shapes (domList (after 1).1 (after 1).2.1) ≠ shapes (domList σ0 ins
 
 -- a write to a signal that does not exist (`List.set` is a no-op, `updateList` still runs)
 example : runWrites σ0 inst0 9 [(7, 3)] = (σ0, inst0, 9) := by decide
+
+/-- `NoHydrate` around a dynamic text and a dynamic view: on the client the same document (shape and
+identities) as with a fragment, before and after a write that re-creates the dynamic view inside it -/
+def viewN (wrap : VDList → VD) : VDList :=
+  ofList [.el [100] [] (ofList
+    [wrap (ofList [.dynText 0, .dynView 0 (.cons (ofList [.text [1]]) (.cons (ofList [.el [2] [] .nil]) .nil))]),
+     .text [7]])]
+
+def afterN (wrap : VDList → VD) : Store × InstList × Nat :=
+  runWrites σ0 (mountList σ0 (viewN wrap) 0).1 (mountList σ0 (viewN wrap) 0).2 [(0, 2)]
+
+example : shapes (domList σ0 (mountList σ0 (viewN .noHydrate) 0).1)
+      = [.elem [100] [] [.text [49], .comment, .elem [2] [] [], .comment, .text [7]]]
+    ∧ shapes (domList (afterN .noHydrate).1 (afterN .noHydrate).2.1)
+      = [.elem [100] [] [.text [50], .comment, .text [1], .comment, .text [7]]]
+    ∧ shapes (domList (afterN .noHydrate).1 (afterN .noHydrate).2.1)
+      = shapes (domList (afterN .frag).1 (afterN .frag).2.1)
+    ∧ idsL (domList (afterN .noHydrate).1 (afterN .noHydrate).2.1)
+      = idsL (domList (afterN .frag).1 (afterN .frag).2.1)
+    ∧ (afterN .noHydrate).2.1.ids = [0, 1, 2, 6, 3, 5] := by decide
 
 end Example
 
